@@ -1,0 +1,25 @@
+//go:build verif
+
+package kernel
+
+import (
+	"github.com/MixinNetwork/mixin/common"
+	"github.com/MixinNetwork/mixin/crypto"
+)
+
+// VerifC16ValidateSnapshotTransaction runs the node's own validation of the transactions of a
+// snapshot (cached -> Validate -> lock + persist; persisted -> trusted) and reports how many
+// members were found / missing.
+func (node *Node) VerifC16ValidateSnapshotTransaction(s *common.Snapshot, finalized bool) (int, int, error) {
+	found, missing, err := node.validateSnapshotTransaction(s, finalized)
+	return len(found), len(missing), err
+}
+
+// VerifC16TopoWriteAt writes a finalized snapshot through TopoWrite at the given topological order
+// (the harness owns the topology counter because it also writes snapshots directly to the store).
+func (node *Node) VerifC16TopoWriteAt(s *common.Snapshot, signers []crypto.Hash, topo uint64) *common.SnapshotWithTopologicalOrder {
+	node.TopoCounter.Lock()
+	node.TopoCounter.seq = topo - 1
+	node.TopoCounter.Unlock()
+	return node.TopoWrite(s, signers)
+}
